@@ -12,7 +12,9 @@ import (
 
 	"verif/harness/llvmoracle"
 	"verif/harness/mbt"
+	"verif/harness/props/corpus"
 	"verif/harness/props/irwalk"
+	"verif/harness/props/modgen"
 	"verif/harness/props/reg"
 	"verif/harness/props/trcheck"
 	"verif/harness/props/trsrc"
@@ -142,6 +144,15 @@ func Run(tier, replay string) {
 	for i, t := range texts {
 		if t != "" {
 			walkText(rep, "llvm-stress", fmt.Sprintf("stress-%d.ll", i), t)
+		}
+	}
+	// clang output (debug info, exceptions, TLS, ifunc ...) and the Modules.tla feature matrix
+	for _, in := range corpus.Clang("-O0", "-O2 -g") {
+		walkText(rep, "clang", in.Name, in.Text)
+	}
+	for _, v := range modgen.Generate(rep, "*") {
+		if v.Repr && v.Fam != "spell" {
+			walkText(rep, "modules-tla", v.Label(), v.Text())
 		}
 	}
 	viol := trcheck.AsImplementedViolations(rep, "alias")
